@@ -194,6 +194,14 @@ EDITS = {
         ("ut11", "crates/lib/mimium-lang/src/ast/program.rs", "                        TypedId::new(mangled_name, fnty),", "                        TypedId::new(name, fnty),", "verus", "use_tables"),
     ],
     "C20": [
+        ("se01", "crates/lib/mimium-lang/src/types/serde_impl.rs", 'serialize_struct_variant("Type", 2, "Tuple", 1)', 'serialize_struct_variant("Type", 7, "Tuple", 1)', "verus", "serde_enums"),
+        ("se02", "crates/lib/mimium-lang/src/types/serde_impl.rs", '                sv.serialize_field("arg", arg)?;\n                sv.serialize_field("ret", ret)?;', '                sv.serialize_field("ret", ret)?;\n                sv.serialize_field("arg", arg)?;', "verus", "serde_enums"),
+        ("se03", "crates/lib/mimium-lang/src/types/serde_impl.rs", "                        Ok(Type::Ref(t))", "                        Ok(Type::Code(t))", "verus", "serde_enums"),
+        ("se04", "crates/lib/mimium-lang/src/types/serde_impl.rs", "            Ref,\n            Code,\n", "            Code,\n            Ref,\n", "verus", "serde_enums"),
+        ("se05", "crates/lib/mimium-lang/src/interpreter/serde_impl.rs", "                        Ok(Value::Tuple(tuple))", "                        Ok(Value::Array(tuple))", "verus", "serde_enums"),
+        ("se06", "crates/lib/mimium-lang/src/interpreter/serde_impl.rs", '                sv.serialize_field("0", tag)?;\n                sv.serialize_field("1", val)?;', '                sv.serialize_field("1", val)?;\n                sv.serialize_field("0", tag)?;', "verus", "serde_enums"),
+        ("se07", "crates/lib/mimium-lang/src/interpreter/serde_impl.rs", "                        Ok(Value::Fixpoint(fields.0, fields.1))", "                        Ok(Value::Code(fields.1))", "verus", "serde_enums"),
+        ("se08", "crates/lib/mimium-lang/src/types/serde_impl.rs", '            Type::Unknown => serializer.serialize_unit_variant("Type", 13, "Unknown"),', '            Type::Unknown => serializer.serialize_unit_variant("Type", 12, "Unknown"),', "verus", "serde_enums"),
         ("ff01", RT + "ffi_serde.rs", "            Value::Store(_) => {\n                Err(\"Mutable stores cannot be serialized across FFI boundaries\".to_string())\n            }", "            Value::Store(_) => Ok(FfiValue::Unit),", "verus", "ffi_serde"),
         ("ff02", RT + "ffi_serde.rs", "FfiValue::Tuple(t) => Value::Tuple(", "FfiValue::Tuple(t) => Value::Array(", "verus", "ffi_serde"),
         ("ff03", RT + "ffi_serde.rs", "Ok(FfiValue::TaggedUnion(*tag, Box::new(val.to_ffi_value()?)))", "Ok(FfiValue::TaggedUnion(*tag + 1, Box::new(val.to_ffi_value()?)))", "verus", "ffi_serde"),
